@@ -346,9 +346,12 @@ func cursorOracle(c *kit.Case) error {
 				}
 				break
 			}
-			_, n, ok := rd.SkipSpaces()
+			sg, n, ok := rd.SkipSpaces()
 			if n != cnt || ok == m.eof() {
 				return fail("skipspaces", "SkipSpaces consumed %d (more input: %v), maximal run is %d (more input: %v)", n, ok, cnt, !m.eof())
+			}
+			if ok && (sg.Start < 0 || sg.Start > sg.Stop || sg.Stop > len(src)) {
+				return fail("skipspaces-segment", "SkipSpaces returned the segment %v for a source of %d bytes", sg, len(src))
 			}
 		case op == "SB":
 			cnt := 0
@@ -366,7 +369,10 @@ func cursorOracle(c *kit.Case) error {
 				m.enter(m.line + 1)
 				cnt++
 			}
-			_, n, ok := rd.SkipBlankLines()
+			sg, n, ok := rd.SkipBlankLines()
+			if ok && (sg.Start < 0 || sg.Start > sg.Stop || sg.Stop > len(src)) {
+				return fail("skipblanklines-segment", "SkipBlankLines returned the segment %v for a source of %d bytes", sg, len(src))
+			}
 			if n != cnt || ok == m.eof() {
 				return fail("skipblanklines", "SkipBlankLines skipped %d (more input: %v), model %d (more input: %v)", n, ok, cnt, !m.eof())
 			}
